@@ -370,12 +370,29 @@ func c13Mine(c *Ctx, rel string) {
 				continue
 			}
 			unbounded++
-			if lit != nil && matches("bin<==>(call<sync/atomic.LoadUint32>($d), 0)", lit) {
-				bd, _ := ana.Match("bin<==>(call<sync/atomic.LoadUint32>($d), 0)", lit)
-				if bd["$d"].Op == "param" {
-					polled++
+			// every trip round the cycle passes an edge on which a fresh atomic load of the done flag (a parameter) read 0 —
+			// as the loop condition or as `if load != 0 { break / return }` anywhere in the body
+			var polls []ana.Edge
+			loop := ana.LoopBlocks(be)
+			for _, ce := range sb.CondEdges() {
+				if !loop[ce.From] {
 					continue
 				}
+				if bd, m := ana.Match("bin<==>(call<sync/atomic.LoadUint32>($d), 0)", ce.Lit); m && bd["$d"].Op == "param" {
+					if ld, isCall := ce.Lit.Arg(0).V.(*ssa.Call); isCall && loop[ld.Block()] {
+						polls = append(polls, ce.Edge)
+					}
+				}
+			}
+			beIsPoll := false
+			for _, p := range polls {
+				if p == be {
+					beIsPoll = true
+				}
+			}
+			if len(polls) > 0 && (beIsPoll || !ana.ReachableFrom(hdr, polls)[be.From]) {
+				polled++
+				continue
 			}
 			r.Viol(K("C13.cancel-flow.poll"), c.P.Pos(hdr.Instrs[0].Pos()), "unbounded cycle in %s whose continuation does not depend on an atomic load of the done flag: %s", search.Name(), short(fmt.Sprint(lit), 120))
 		}
@@ -610,3 +627,4 @@ func c13Classify(c *Ctx, mine *ssa.Function, sc *sharedCell, gos []*ssa.Go) (kin
 
 // reachableRepoAndDeps: repository functions reachable through static calls (incl. closures).
 func reachableRepoAndDeps(fn *ssa.Function) []*ssa.Function { return reachableRepoFuncs(fn) }
+
